@@ -18,6 +18,54 @@ CHECKS = {
         note=ORACLE + "; clocks bounded as reachable by play",
         ref="DESIGN.md 6 C02",
     ),
+    "C05": dict(
+        technique="property-based testing against an independent terminal-position oracle; exhaustive K+X v K families",
+        text="Generated-input search: the oracle classifies every generated position as checkmate / stalemate / has a move; the evaluator must return exactly -/+mate_in_ply(ply), exactly 0, or a non-terminal score. Complete K+X v K families (exhaustive), random games, constructed positions and all their successors; mate scores checked terminal and non-increasing for ply 0..10000.",
+        note=ORACLE + "; material imbalance kept <= 70 pawn units (property bounds it at 90); ply < 2^31",
+        ref="DESIGN.md 6 C05",
+    ),
+    "C08": dict(
+        technique="property-based metamorphic testing of the hash: generated equal pairs (transpositions, counters, FEN re-parse) and single-component mutations, over generated hasher seeds",
+        text="Generated-input search over pairs of legal positions: pairs the oracle shows equal in placement/side/rights/ep must hash equal (different counters, FEN re-parse, two move orders transposing); pairs differing in exactly one rule-relevant component (piece moved/added/removed/recoloured/re-kinded, side, castling subset, legally available ep capture) must hash differently, for generated hasher seeds. Pairs the property leaves free are counted, not judged.",
+        note=ORACLE + "; chance 64-bit collisions (2^-64 per pair) would be reported, probability < 1e-11 per run",
+        ref="DESIGN.md 6 C08",
+    ),
+    "C09": dict(
+        technique="exhaustive enumeration of on-ray occupancies against a coordinate ray walk, plus seeded off-ray noise",
+        text="Exhaustive over the stated finite space: every subset of all squares on the rook rays (<=2^14) and bishop rays (<=2^13) of each square, each also with the own-square bit and seeded off-ray noise that must not matter; queen on every single-ray subset plus sampled whole-board occupancies; knight/king/pawn on all 64 squares. Oracle = coordinate ray walk / step patterns with explicit edge tests.",
+        note="off-ray noise and queen whole-board occupancies are sampled (SplitMix64 of VERIF_SEED), everything else is complete",
+        ref="DESIGN.md 6 C09",
+    ),
+    "C10": dict(
+        technique="stateful property-based testing: generated op lists over a pool of state objects against the oracle's attack sets",
+        text="Generated-input search: positions from play, the constructive builder and arbitrary placements; generated operation lists (attack queries for both colours, pawn-only sets, check queries, clones, adopting successors with warm caches) are interpreted against the oracle; every answer must match whatever the order and clone timing.",
+        note=ORACLE + "; is_check asserted only when the colour has exactly one king",
+        ref="DESIGN.md 6 C10",
+    ),
+    "C11": dict(
+        technique="property-based round-trip testing (state->FEN->state and canonical text->state->text) with an independent FEN writer",
+        text="Generated-input search: every position of random games reached by weechess's own successors must survive FEN write/read with the same text, fields, legal moves, hash (generated seeds) and evaluation; canonical strings from the independent writer (all 16 castling sets, ep on both ranks, extreme counters up to 2^64-1) must be reproduced character for character and parse to the generating position.",
+        note="the oracle's FEN writer is correct (its round trip on the perft suite is asserted at every run)",
+        ref="DESIGN.md 6 C11",
+    ),
+    "C12": dict(
+        technique="property-based testing with an independent SAN writer: all admissible spellings of all legal moves, negative cases from pseudo-legal-but-illegal moves",
+        text="Generated-input search: for each generated position and each legal move every admissible SAN spelling must resolve (parser + MoveSet::filter) to exactly that move; fully specified spellings of illegal pseudo-legal moves must resolve to nothing; Lan text must equal origin+destination+lower-case promotion and select the same move again.",
+        note=ORACLE + "; only spellings a PGN writer may produce",
+        ref="DESIGN.md 6 C12",
+    ),
+    "C13": dict(
+        technique="property-based metamorphic testing (perspective negation, colour mirror) with exact integer equality",
+        text="Generated-input search: evaluate(s,W,p) == -evaluate(s,B,p) and evaluate(mirror(s),!c,p) == evaluate(s,c,p) exactly, on random games, constructed positions, terminal successors and the K+X v K families, for several ply values.",
+        note="the oracle's mirror() is the transformation the property describes",
+        ref="DESIGN.md 6 C13",
+    ),
+    "C20": dict(
+        technique="exhaustive enumeration of all constructor combinations with accessor read-back, injectivity of the packed value and serde round trips",
+        text="Exhaustive over the stated finite space (1 474 560 constructor combinations + 8192 en-passant + 4 castling moves): every accessor returns what went in, packed values are injective over attribute tuples, == agrees with tuple equality, JSON and CBOR round trips return an equal move, bits 29-31 stay clear.",
+        note="double-step flag asserted only for pawn moves of exactly two ranks (true) and non-pawn / <=1 rank moves (false)",
+        ref="DESIGN.md 6 C20",
+    ),
 }
 
 NOT_YET = {
